@@ -3921,7 +3921,8 @@ handleConnectionsThreadless(CS104_Slave self)
                     connection = getFreeConnection(self);
 
 #if (CONFIG_CS104_SUPPORT_SERVER_MODE_CONNECTION_IS_REDUNDANCY_GROUP == 1)
-                    if (self->serverMode == CS104_MODE_CONNECTION_IS_REDUNDANCY_GROUP)
+                    /* no free connection slot: connection is NULL, the attempt is turned away below */
+                    if ((connection != NULL) && (self->serverMode == CS104_MODE_CONNECTION_IS_REDUNDANCY_GROUP))
                     {
                         lowPrioQueue = connection->lowPrioQueue;
                         MessageQueue_initialize(lowPrioQueue);
